@@ -390,6 +390,12 @@ impl<T: Copy> Buffer<T> {
             n,
             s.used
         );
+        if n == 0 {
+            // Nothing consumed: positions and tags stay as they are. Without
+            // this, `newpos == rpos` below is taken for a full wrap, and every
+            // buffered tag is dropped.
+            return;
+        }
         let newpos = (s.rpos + n) % s.capacity();
         use std::ops::Bound::{Excluded, Included};
 
